@@ -132,6 +132,17 @@ structure Rw where
   dropped : List Bool := []            -- Concat: inputs removed from the operator altogether
   deriving DecidableEq, Repr
 
+/-- how a rule sees its parent: every modelled `_simplify_up` branch is guarded by `isinstance(parent, Projection)`
+    (Merge: `(Projection, Index)`); a parent of any other class gets no column rewrite -/
+inductive ParentClass where
+  | proj (p : Parent)
+  | other
+  deriving DecidableEq, Repr
+
+def onProjection (rule : Parent → Option Rw) : ParentClass → Option Rw
+  | .proj p => rule p
+  | .other => none
+
 /-- first part of `plain_column_projection`: restrict to the input's columns, in input order -/
 def plainSel (frame : List Name) : Sel → Sel
   | .many l => .many (frame.filter (l.contains ·))
